@@ -45,6 +45,8 @@ func (s Step) String() string {
 		return fmt.Sprintf("join(r%d<-copy of r%d + 2 new valid entries, the older of which CLAIMS the hash of r%d's own entry #%d and is filed under its true hash)", s.R, s.R, s.R, s.S)
 	case "joinmislabelled":
 		return fmt.Sprintf("join(r%d<-log object carrying this log's id but holding the entries of ANOTHER log)", s.R)
+	case "joinforged":
+		return fmt.Sprintf("join(r%d<-r%d's log with one interior entry (#%d of those r%d lacks) replaced by a forged same-hash copy)", s.R, s.S, s.PC, s.R)
 	case "joinimpostor":
 		return fmt.Sprintf("join(r%d<-log whose head is a copy of r%d's own %s entry #%d with %s, same hash)", s.R, s.R, s.Payload, s.S, []string{"another payload", "no links", "another payload and no links"}[s.PC%3])
 	case "burst":
@@ -60,7 +62,7 @@ func (s Step) String() string {
 // ExpectsError: operations that the library refuses (and that must leave the log as it was). "joinimpostor"
 // may be refused or succeed; see MustNotChange.
 func (s Step) ExpectsError() bool {
-	return s.Op == "denyappend" || s.Op == "joinrejected" || s.Op == "joinalien" || s.Op == "joinimpostor" || s.Op == "joinmislabelled" || s.Op == "joinrelabelled" || s.Op == "joinotherid"
+	return s.Op == "denyappend" || s.Op == "joinrejected" || s.Op == "joinalien" || s.Op == "joinimpostor" || s.Op == "joinmislabelled" || s.Op == "joinrelabelled" || s.Op == "joinotherid" || s.Op == "joinforged"
 }
 
 // MustNotChange: operations after which the replica must be as before whether or not an error is returned.
@@ -94,6 +96,7 @@ type GenOpts struct {
 	Failures    bool // also generate refused operations (denied appends, rejected merges) and forks
 	Extra       bool // also generate setident / reload steps (C04)
 	SubsetForks bool // with Failures: forks opened with only ONE of the source's heads (C05: such a log holds entries outside the ancestry of its heads; nothing may vanish from it)
+	Huge        bool // a third of the histories have replicas whose clocks start at 2^60, whether or not there are refused operations
 	HugeOften   bool // with Failures: half of the histories (not an eighth) have replicas whose clocks start at 2^60
 	Hostile     bool // with Failures: also merges of logs that hold a validly signed entry of ANOTHER log id in the middle of their history (C02, C03; the loaders do not filter by log id, so monitors that rebuild logs from storage do not use it)
 	MaxSteps    int
@@ -125,6 +128,9 @@ func Gen(seed int64, idx int, o GenOpts) *History {
 	h.Replicas = 2 + rng.Intn(o.MaxReplicas-1)
 	h.Failures = o.Failures
 	h.HugeClocks = o.Failures && idx%8 == 5
+	if o.Huge && (idx/len(o.Shapes)+idx)%3 == 1 {
+		h.HugeClocks = true
+	}
 	if o.Failures && o.HugeOften {
 		h.HugeClocks = idx%2 == 0
 	}
@@ -204,7 +210,16 @@ func Gen(seed int64, idx int, o GenOpts) *History {
 				h.Steps = append(h.Steps, Step{Op: "joinmislabelled", R: s.R})
 			case 5:
 				// a log offering, as its head, a same-hash object that differs from what this replica holds
-				h.Steps = append(h.Steps, Step{Op: "joinimpostor", R: s.R, S: rng.Intn(1000), PC: rng.Intn(3), Payload: []string{"head", "head", "interior"}[rng.Intn(3)]})
+				imp := Step{Op: "joinimpostor", R: s.R, S: rng.Intn(1000), PC: rng.Intn(3), Payload: []string{"head", "head", "interior"}[rng.Intn(3)]}
+				if imp.S%4 == 3 && h.Replicas > 1 {
+					// ... or a FORGED copy (same hash, other payload, so the signature does not fit) of an entry this replica
+					// does not hold yet, in the middle of what another replica could offer: refused - and the genuine
+					// history, merged right afterwards, must arrive complete
+					src := (s.R + 1 + (imp.S/4)%(h.Replicas-1)) % h.Replicas
+					h.Steps = append(h.Steps, Step{Op: "joinforged", R: s.R, S: src, PC: imp.S / 8}, Step{Op: "join", R: s.R, S: src})
+				} else {
+					h.Steps = append(h.Steps, imp)
+				}
 			case 0:
 				h.Steps = append(h.Steps, Step{Op: "denyappend", R: s.R, Payload: pay()})
 			case 1, 2:
@@ -467,6 +482,10 @@ func minI(a, b int) int {
 }
 
 // Exec executes a history on fresh replicas.
+// OnStepProblem, when set, is told about a step that ended in a way no correct library allows (mon reports it for
+// the properties that speak about the content of what a log holds).
+var OnStepProblem func(step, problem string)
+
 type Exec struct {
 	W        *World
 	H        *History
@@ -803,6 +822,46 @@ func (x *Exec) Do(i int) StepResult {
 			panic(err)
 		}
 		_, jerr := l.Join(tmp, -1)
+		return StepResult{Err: jerr}
+	case "joinforged":
+		src := x.Logs[s.S]
+		var lacking []iface.IPFSLogEntry
+		for _, e := range src.Values().Slice() {
+			if e != nil && !l.Has(e.GetHash()) {
+				lacking = append(lacking, e)
+			}
+		}
+		if len(lacking) < 2 {
+			return StepResult{}
+		}
+		// not the oldest of what is new; every other time the parent the replica's own oldest entry is waiting for
+		victim := lacking[1+s.PC%(len(lacking)-1)]
+		ce := victim.Copy()
+		ce.SetPayload([]byte(string(victim.GetPayload()) + "-forged"))
+		ents := src.GetEntries()
+		ents.Set(victim.GetHash().String(), ce)
+		var heads []iface.IPFSLogEntry
+		for _, hd := range src.Heads().Slice() {
+			if hd.GetHash().Equals(victim.GetHash()) {
+				heads = append(heads, ce)
+			} else {
+				heads = append(heads, hd)
+			}
+		}
+		lo := x.W.LogOpts(x.W.LogID)
+		lo.AccessController = nil
+		lo.Entries = ents
+		lo.Heads = heads
+		tmp, err := ipfslog.NewLog(x.W.Store.API(), x.W.Idents[x.Writer[s.R]], lo)
+		if err != nil {
+			panic(err)
+		}
+		_, jerr := l.Join(tmp, -1)
+		if jerr == nil && OnStepProblem != nil {
+			if got, ok := l.Get(victim.GetHash()); ok && got != nil && string(got.GetPayload()) != string(victim.GetPayload()) {
+				OnStepProblem(s.String(), fmt.Sprintf("the merge was accepted and the replica now holds, under hash %s, the forged payload %q (genuine: %q)", Short(victim.GetHash().String()), got.GetPayload(), victim.GetPayload()))
+			}
+		}
 		return StepResult{Err: jerr}
 	case "burst":
 		return x.burst(s)
